@@ -76,6 +76,11 @@ func drawC03Cfg(t *rapid.T) c03Cfg {
 
 // c03Drive runs the caller loop "continue on error" and checks termination, progress and the absence of panics.
 func c03Drive(input []byte, c c03Cfg) (violation string, sawErr, sawData bool) {
+	guarded("NextPacket/NextData", func() { violation, sawErr, sawData = c03DriveUnguarded(input, c) })
+	return
+}
+
+func c03DriveUnguarded(input []byte, c c03Cfg) (violation string, sawErr, sawData bool) {
 	var r io.Reader
 	consumed := func() int { return -1 }
 	switch c.reader {
@@ -413,7 +418,7 @@ func c03Seeds() [][]byte {
 	var seeds [][]byte
 	seeds = append(seeds, []byte{}, []byte{0x47}, bytes.Repeat([]byte{0x47}, 193), bytes.Repeat([]byte{0xff}, 400), bytes.Repeat([]byte{0}, 400))
 	// a small valid stream from the Muxer
-	var buf bytes.Buffer
+	var buf cappedBuffer
 	m := astits.NewMuxer(context.Background(), &buf)
 	_ = m.AddElementaryStream(astits.PMTElementaryStream{ElementaryPID: 0x100, StreamType: astits.StreamTypeH264Video})
 	m.SetPCRPID(0x100)
